@@ -80,6 +80,40 @@ func (e *Env) Create(conn, path string, pageSize, autoVacuum int, stmts []oracle
 	return e.O.Script(conn, append(pre, stmts...), true)
 }
 
+// CreateLegacy is Create for a file of schema format 2 or 3: an empty file
+// gets that format into its header, and SQLite keeps the format for everything
+// it creates in the file afterwards (until a VACUUM rebuilds it as format 4).
+// In those formats DESC in an index is ignored: the index is stored ascending.
+func (e *Env) CreateLegacy(conn, path string, pageSize, autoVacuum, format int, stmts []oracle.Stmt) ([]oracle.StmtResult, error) {
+	Remove(path)
+	if err := e.O.Open(conn, path); err != nil {
+		return nil, err
+	}
+	pre := []oracle.Stmt{
+		{SQL: fmt.Sprintf("PRAGMA page_size=%d", pageSize)},
+		{SQL: fmt.Sprintf("PRAGMA auto_vacuum=%d", autoVacuum)},
+	}
+	if _, err := e.O.Script(conn, append(append([]oracle.Stmt{}, pre...), oracle.Stmt{SQL: "VACUUM"}), true); err != nil {
+		return nil, err
+	}
+	if err := e.O.Close(conn); err != nil {
+		return nil, err
+	}
+	b, err := os.ReadFile(path)
+	if err != nil || len(b) < 100 {
+		return nil, fmt.Errorf("legacy format: the empty database has %d bytes: %v", len(b), err)
+	}
+	b[44], b[45], b[46], b[47] = 0, 0, 0, byte(format)
+	b[56], b[57], b[58], b[59] = 0, 0, 0, 1 // UTF-8, which SQLite sets together with the format
+	if err := os.WriteFile(path, b, 0o644); err != nil {
+		return nil, err
+	}
+	if err := e.O.Open(conn, path); err != nil {
+		return nil, err
+	}
+	return e.O.Script(conn, append(pre, stmts...), true)
+}
+
 // TextParam renders the SQL for a parameter holding v: text goes through a
 // CAST of the blob parameter so that any byte sequence survives.
 func TextParam(v val.V) string {
